@@ -316,6 +316,13 @@ func (jenny RawTypes) defaultValueForStructs(def ast.StructType, m *orderedmap.M
 		if m.Has(f.Name) {
 			switch x := m.Get(f.Name).(type) {
 			case map[string]any:
+				// only structs are described field by field: the value of a
+				// map, of a reference, ... is written as it is
+				if !f.Type.IsStruct() {
+					buffer.WriteString(fmt.Sprintf("%s: %v, ", f.Name, formatValue(x)))
+					continue
+				}
+
 				buffer.WriteString(fmt.Sprintf("%s: %v, ", f.Name, jenny.defaultValueForStructs(f.Type.AsStruct(), orderedmap.FromMap(x))))
 			case nil:
 				buffer.WriteString(fmt.Sprintf("%s: %v, ", f.Name, formatValue([]any{})))
